@@ -15,6 +15,8 @@ from . import analysis
 rule("C02.c", "in/out role consistency: within a class every two-block construct puts the in-side (cap_in, cost_in, eff_in, "
               "'disp_in', nodes[0], min(0,.), -extra_costs, -1) in the same position and the out-side in the other", floor=14,
      props=["C02", "C05"])
+rule("C02.n", "costs on |dispatch| get their sign from the predicates that make the dispatch one-signed (all(max_cap <= 0): minus, all(min_cap >= 0): "
+              "plus), not from np.sign of a capacity per step (0 where the capacity is 0)", floor=2, props=["C02", "C14"])
 rule("C02.d", "a per-volume cost enters the cost vector negated on the side whose dispatch is <= 0 and un-negated on the side whose "
               "dispatch is >= 0 (cost x |x| is an expense on both sides)", floor=5)
 rule("C02.e", "at every define_restr call a maximum take is an upper row and a minimum take a lower row, exchanged exactly when "
@@ -157,7 +159,7 @@ def _reverse_flow_guard(p, st, fn):
     return None
 
 
-@analysis("roles", ["C02.c", "C02.d", "C02.e", "C02.j", "C02.l", "C02.m"])
+@analysis("roles", ["C02.c", "C02.d", "C02.e", "C02.j", "C02.l", "C02.m", "C02.n"])
 def run(ctx):
     p = ctx.p
     total = 0
@@ -320,7 +322,56 @@ def run(ctx):
                     n += 1
                     ctx.ob("C02.d", tr, "%s under %s" % (au.short(s2, 30), au.short(st.test, 30)), isinstance(s2.value.op, ast.USub),
                            "with an always negative flow the per-flow cost must be negated", node=s2)
-    ctx.require(n >= 5, "fewer than 5 cost-sign sites found")
+    # the same sign rule behind a shared helper:  def h(costs, min_cap, max_cap): if all(max_cap <= 0): return -costs; return costs
+    sign_helpers = {}
+    for hf in p.all_functions():
+        if hf.parent is not None or hf.cls is not None:
+            continue
+        for st in hf.body:
+            if isinstance(st, ast.If) and isinstance(st.test, ast.Call) and au.method_name(st.test) == "all" and st.test.args \
+                    and isinstance(st.test.args[0], ast.Compare) and isinstance(st.test.args[0].ops[0], ast.LtE) and au.const_num(st.test.args[0].comparators[0]) == 0 \
+                    and len(st.body) == 1 and isinstance(st.body[0], ast.Return) and isinstance(st.body[0].value, ast.UnaryOp) \
+                    and isinstance(st.body[0].value.op, ast.USub) and isinstance(st.body[0].value.operand, ast.Name) and hf.param(st.body[0].value.operand.id) is not None:
+                sign_helpers[hf.name] = (hf, st.body[0].value.operand.id)
+    ABS_COSTS = {"SimpleContract": ("extra_costs",), "Transport": ("costs_time_series", "costs_const")}
+    for fn_ in (sc, tr):
+        org_ = ctx.origins(fn_)      # (with selectors: prices[self.costs_time_series] names the attribute in its subscript)
+        for st in au.walk_stmts(fn_.body):
+            if not (isinstance(st, ast.Assign) and isinstance(st.value, (ast.BinOp, ast.Call))):
+                continue
+            calls = [c for c in ast.walk(st.value) if isinstance(c, ast.Call) and isinstance(c.func, ast.Name) and c.func.id in sign_helpers]
+            if not calls:
+                continue
+            n += 1
+            unsigned = []
+            for t in au.flatten_binop(st.value, (ast.Add,)):
+                if any(t is c or any(t is y for y in ast.walk(c)) for c in calls) or any(c is y for c in calls for y in ast.walk(t)) and isinstance(t, ast.Call):
+                    continue
+                attrs = {x.attr for x in org_.nodes(t, st) if isinstance(x, ast.Attribute) and au.base_name(x) == "self"}
+                hit = attrs & set(ABS_COSTS.get(fn_.cls.name, ()))
+                if hit:
+                    unsigned.append((t, sorted(hit)))
+            ctx.ob("C02.d", fn_, "%s: every cost on |dispatch| goes through %s" % (au.short(st, 50), calls[0].func.id), not unsigned,
+                   "the term %s (from self.%s) is a cost per volume moved, but it is added outside the helper that gives such costs the sign of the "
+                   "flow: with an always negative flow (transport used from node 2 to node 1) it is earned instead of paid (optimum 4351.16 "
+                   "instead of 1286.65)" % (au.short(unsigned[0][0], 40) if unsigned else "", ", self.".join(unsigned[0][1]) if unsigned else ""), node=st)
+    ctx.require(n >= 3, "fewer than 3 cost-sign sites found")
+    # the direction of a one-signed dispatch is decided by the branch predicates, never step by step from the sign of a capacity
+    n_sg = 0
+    for fn_ in (sc, tr):
+        org_ = ctx.origins(fn_, values_only=True)
+        hits = []
+        for x in au.walk_local(fn_.node, include_self=False):
+            if isinstance(x, ast.Call) and au.method_name(x) in ("sign", "signbit", "copysign") and x.args:
+                attrs = {y.attr for y in org_.nodes(x.args[-1], p.enclosing_stmt(x)) if isinstance(y, ast.Attribute) and au.base_name(y) == "self"}
+                if attrs & {"max_cap", "min_cap"}:
+                    hits.append(x)
+        n_sg += 1
+        ctx.ob("C02.n", fn_, "no direction from the sign of a capacity", not hits,
+               "%s takes the direction of the dispatch from %s step by step: where that capacity is exactly 0 the direction is 0 although the "
+               "other bound lets the asset dispatch (take-only steps with max_cap = 0, min_cap < 0), so the cost on |dispatch| vanishes there - "
+               "the one-signed cases are all(max_cap <= 0) / all(min_cap >= 0) as a whole (split value 1002.38 against the unsplit optimum 617.50)"
+               % (fn_.qualname, au.short(hits[0], 40) if hits else ""), node=(hits[0] if hits else fn_.node))
 
     # ================================================================= C02.e take sign vs letter
     n = 0
